@@ -109,6 +109,11 @@ type Machine struct {
 	normBuf    []value
 	lastRand   value
 	absDone    map[*Term]bool
+	absProducts map[uint64][]absProduct
+	exploreSched bool
+	accesses   []accessEvent
+	schedPoints int
+	randCount  int
 	tokens     map[string]value
 	errCause   map[*value]iface
 
@@ -140,6 +145,11 @@ func (m *Machine) resetPath(prefix []int) {
 	m.curFrame = nil
 	m.normBuf = nil
 	m.absDone = nil
+	m.absProducts = nil
+	m.exploreSched = false
+	m.accesses = nil
+	m.schedPoints = 0
+	m.randCount = 0
 	m.tokens = nil
 	m.errCause = nil
 }
@@ -455,6 +465,7 @@ type asyncPool struct {
 	mu   sync.Mutex
 	queries, nsat, nunsat, nunknown int
 	time time.Duration
+	nlsatFirst bool
 }
 
 func newAsyncPool(n int, bin string, timeoutMS int, nra bool) *asyncPool {
@@ -480,6 +491,7 @@ func newAsyncPool(n int, bin string, timeoutMS int, nra bool) *asyncPool {
 				if solver == nil {
 					solver = NewSolver(bin, timeoutMS)
 					solver.nra = nra
+					solver.nlsatFirst = p.nlsatFirst
 				}
 				job.done <- runAsyncJob(solver, job)
 				if solver.sinceRestart > 200 {
@@ -508,6 +520,14 @@ func runAsyncJob(solver *Solver, job *asyncJob) (out asyncResult) {
 	}
 	solver.Assert(job.neg)
 	r := solver.Check()
+	if r == Unknown {
+		// one retry with three times the budget (most queries are fast, so
+		// this is rare; it makes the verdict robust against a loaded machine)
+		old := solver.timeoutMS
+		solver.timeoutMS = old * 3
+		r = solver.Check()
+		solver.timeoutMS = old
+	}
 	out.res = r
 	if r == Sat {
 		var vars []*Term
